@@ -321,6 +321,9 @@ def o_diff(case):
 def s_diff(draw, tier):
     items = streams.flatten(draw(st.lists(st.one_of(streams.wellformed_items("small", fillers_ok=False), streams.damaged_frames("small")), min_size=1, max_size=10)))
     n = sum(len(i["b"]) // 2 for i in items)
+    if draw(st.integers(0, 3)) == 0:
+        # one item per segment: what a sender that writes message by message produces
+        return {"items": items, "cuts": streams.boundaries(items), "bufsize": draw(st.sampled_from(BUFS)), "qoe": draw(st.sampled_from([0, 1])), "labelmsm": draw(st.sampled_from([1, 2]))}
     return {"items": items, "cuts": draw(streams.partitions(n)), "bufsize": draw(st.sampled_from(BUFS)), "qoe": draw(st.sampled_from([0, 1])), "labelmsm": draw(st.sampled_from([1, 2]))}
 
 
